@@ -965,6 +965,48 @@ def dynamic_reset_and_item_defaults_stream(ctx, res):
             res.violate("C12:callable-default-not-fresh", "a callable default of an item schema was not evaluated anew for every item built from a map (two items share one result), or "
                         "the items report the field as user-defined", dict(case, tokens=repr(toks)[:200]))
 
+def none_is_a_value_stream(ctx, res):
+    """an accepted assignment or load of None (null) to a field that is not required makes the field user-defined like any other
+    value — it no longer holds its default — at the root and nested, next to the falsy values 0, '', [], False; a reset takes it
+    back"""
+    import cincoconfig as cc
+    from cincoconfig.support import is_value_defined, reset_value
+    s = cc.Schema()
+    s.port = cc.IntField(default=8080)
+    s.sub.deep.name = cc.StringField(default="n")
+    s.sub.deep.flag = cc.BoolField(default=True)
+    s.sub.tags = cc.ListField(cc.StringField(), default=lambda: ["a"])
+    for value in (None, 0, "", False, []):
+        for route in ("attribute", "item", "load_tree", "json"):
+            cfg = s()
+            targets = [(cfg, "port", "port"), (cfg.sub.deep, "name", "sub.deep.name"), (cfg.sub.deep, "flag", "sub.deep.flag"), (cfg.sub, "tags", "sub.tags")]
+            for owner, key, path in targets:
+                case = {"stream": "none-is-a-value", "value": repr(value), "route": route, "field": path}
+                try:
+                    if route == "attribute":
+                        setattr(owner, key, value)
+                    elif route == "item":
+                        cfg[path] = value
+                    else:
+                        doc = value
+                        for k in reversed(path.split(".")):
+                            doc = {k: doc}
+                        if route == "load_tree":
+                            cfg.load_tree(doc)
+                        else:
+                            cfg.loads(json.dumps(doc).encode(), format="json")
+                except Exception:  # noqa
+                    continue
+                owner = cfg if "." not in path else cfg[path.rsplit(".", 1)[0]]
+                res.case(stable(case), kind="none-is-a-value")
+                if not is_value_defined(owner, key):
+                    res.violate("C12:status:none", "an accepted assignment / load of a falsy value (None included) did not make the field user-defined", dict(case, reads=repr(owner[key])))
+                    continue
+                reset_value(owner, key)
+                if is_value_defined(owner, key):
+                    res.violate("C12:status:none", "reset_value did not take the user-defined status back", case)
+
+
 def environment_status_stream(ctx, res):
     """a field whose value comes from a SET environment variable is not user-defined — in a fresh configuration and again after
     `reset_value` — for every scalar field class that consults the environment, challenge fields included (their
@@ -1013,6 +1055,7 @@ def environment_status_stream(ctx, res):
 def run(ctx, n_quick=250, n_thorough=8000):
     res = Result()
     guard(res, "C12", environment_status_stream, ctx, res)
+    guard(res, "C12", none_is_a_value_stream, ctx, res)
     guard(res, "C12", dynamic_reset_and_item_defaults_stream, ctx, res)
     guard(res, "C12", refused_write_hook_stream, ctx, res)
     guard(res, "C12", lambda: P.run_stream(ctx, res, "C12", ctx.n(n_quick, n_thorough), oracle, gen_ops=gen_ops))
